@@ -35,8 +35,13 @@ impl<R: io::Read> IoReader<R> {
     pub fn fill_buffer(&mut self, len: usize) -> Result<(), io::Error> {
         let l = self.buf.len();
         if l < len {
-            self.buf.resize(len, 0);
-            self.reader.read_exact(&mut self.buf[l..])?;
+            // `len` usually comes from a size field on the wire: let the buffer grow with
+            // the bytes that actually arrive instead of allocating what the field claims
+            let need = len - l;
+            let got = io::Read::read_to_end(&mut io::Read::take(&mut self.reader, need as u64), &mut self.buf)?;
+            if got < need {
+                return Err(io::ErrorKind::UnexpectedEof.into());
+            }
             Ok(())
         } else {
             Ok(())
